@@ -101,7 +101,8 @@ def run(repo: Repo, rep: Report, tier: str) -> None:
         rep.error(f"only {n_cfg} discriminator configurations analysed")
     _python_level(repo, rep)
     _registry_granularity(repo, rep)
-
+    from ..core import regget
+    regget.report(repo, rep, "R12.6", {"annotated-inherit"})
 
 def _check_helper(rep: Report, cfg, name: str, fn: ast.FunctionDef, r: Rendered) -> None:
     body = fn.body
